@@ -329,6 +329,7 @@ pub fn run_into(rep: &Report, prop: &str) {
             let lines: Vec<&str> = seq.iter().map(|&i| SIGMA_CLEAN[i]).collect();
             let src = build_source(&lines, false, true);
             check_source(rep, prop, &b, &help, &src);
+            rep.st(1);
             rep.add("sources_enumerated", 1);
             if seq == [1, 3] {
                 rep.sample(json!({"source": show(&src), "note": "the second line is text written by `write`, not a temp directive"}));
